@@ -291,19 +291,21 @@ Proof.
   - reflexivity.
 Qed.
 
-Lemma eval_int z : eval_entry (render_int z) = Ok (VInt z).
+(* fuel-generic cores (also used for the elements of sequences, Proofs/KeysSeq.v) *)
+Lemma parse_lit_int f z : parse_lit (S f) (list_ascii_of_string (render_int z)) = Some (VInt z).
 Proof.
-  unfold eval_entry, literal_eval. rewrite render_int_chars.
+  rewrite render_int_chars.
   destruct (zchars_shape z) as (c & r & E & Hc & Hn).
   rewrite E in *. rewrite (parse_lit_atom _ c r Hn Hc). rewrite <- E.
   destruct (parse_atom_zchars z [] VInt) as [H|[]]; auto.
   - intros ms _ Ha Hi. rewrite app_nil_r. apply parse_unsigned_int; assumption.
-  - rewrite app_nil_r in H. rewrite H. reflexivity.
+  - rewrite app_nil_r in H. exact H.
 Qed.
 
-Lemma eval_dec m e : eval_entry (render_int m ++ "e" ++ render_int e)%string = Ok (VDec m e).
+Lemma parse_lit_dec f m e :
+  parse_lit (S f) (list_ascii_of_string (render_int m ++ "e" ++ render_int e)%string) = Some (VDec m e).
 Proof.
-  unfold eval_entry, literal_eval. rewrite !list_ascii_app, !render_int_chars.
+  rewrite !list_ascii_app, !render_int_chars.
   change (list_ascii_of_string "e") with ["e"%char].
   destruct (zchars_shape m) as (c & r & E & Hc & Hn).
   destruct (zchars_shape e) as (ce & re & Ee & Hce & Hne).
@@ -315,17 +317,30 @@ Proof.
   rewrite (parse_lit_atom _ c r' Hall Hc). rewrite <- Er, El.
   destruct (mchars_ok e) as (Hae & _ & Hve & c2 & r2 & Eme & Hc2).
   destruct (parse_atom_zchars m (["e"%char] ++ zchars e) (fun x => VDec x e)) as [H|[]]; auto.
-  - intros ms (c1 & r1 & -> & Hc1) Ha _.
-    assert (Hz : zchars e = sign_chars (match e with Zneg _ => true | _ => false end) ++ mchars e)
-      by (destruct e; reflexivity).
-    rewrite Hz. set (ng := match e with Zneg _ => true | _ => false end).
-    change ((c1 :: r1) ++ ["e"%char] ++ sign_chars ng ++ mchars e)
-      with ((c1 :: r1) ++ "e"%char :: sign_chars ng ++ mchars e).
-    rewrite (parse_unsigned_exp (c1 :: r1) ng (mchars e) c1 r1); eauto.
-    + rewrite Hve. subst ng. destruct e; simpl; reflexivity.
-    + rewrite Eme. discriminate.
-  - rewrite H. reflexivity.
+  intros ms (c1 & r1 & -> & Hc1) Ha _.
+  assert (Hz : zchars e = sign_chars (match e with Zneg _ => true | _ => false end) ++ mchars e)
+    by (destruct e; reflexivity).
+  rewrite Hz. set (ng := match e with Zneg _ => true | _ => false end).
+  change ((c1 :: r1) ++ ["e"%char] ++ sign_chars ng ++ mchars e)
+    with ((c1 :: r1) ++ "e"%char :: sign_chars ng ++ mchars e).
+  rewrite (parse_unsigned_exp (c1 :: r1) ng (mchars e) c1 r1); eauto.
+  + rewrite Hve. subst ng. destruct e; simpl; reflexivity.
+  + rewrite Eme. discriminate.
 Qed.
+
+Lemma eval_of_parse s v :
+  parse_lit (S (List.length (list_ascii_of_string s))) (list_ascii_of_string s) = Some v -> eval_entry s = Ok v.
+Proof. intros H. unfold eval_entry, literal_eval. rewrite H. reflexivity. Qed.
+
+Lemma eval_int z : eval_entry (render_int z) = Ok (VInt z).
+Proof. apply eval_of_parse, parse_lit_int. Qed.
+
+Lemma eval_dec m e : eval_entry (render_int m ++ "e" ++ render_int e)%string = Ok (VDec m e).
+Proof. apply eval_of_parse, parse_lit_dec. Qed.
+
+(* the characters of a rendered number *)
+Lemma zchars_nonspace z : nonspace (zchars z) = true.
+Proof. destruct (zchars_shape z) as (_ & _ & _ & _ & H). exact H. Qed.
 
 (* ------------------------------------------------------------------------------------ the round trip *)
 
